@@ -322,11 +322,11 @@ func (sys *system) checkQuiet(sym int, rtcpBefore []hk.RTCPRec) error {
 			for _, ssrc := range hk.NamedSSRCs(raw) {
 				for k := 1; k <= 2; k++ {
 					if sys.rUnbound[k] && ssrc == hk.StreamInfo(false, k, k == 1).SSRC {
-						return fail(fmt.Sprintf("C11:report-about-unbound-remote-stream:pt%d", raw[1]),
+						return fail(fmt.Sprintf("C11:report-about-unbound-remote-stream:%s:pt%d-fmt%d", sys.c.Kind, raw[1], raw[0]&0x1f),
 							"a whole timer interval after UnbindRemoteStream(%#x) returned, an RTCP packet (PT %d, FMT %d) about that SSRC was written", ssrc, raw[1], raw[0]&0x1f)
 					}
 					if sys.lUnbound[k] && ssrc == hk.StreamInfo(true, k, k == 1).SSRC {
-						return fail(fmt.Sprintf("C11:report-about-unbound-local-stream:pt%d", raw[1]),
+						return fail(fmt.Sprintf("C11:report-about-unbound-local-stream:%s:pt%d-fmt%d", sys.c.Kind, raw[1], raw[0]&0x1f),
 							"a whole timer interval after UnbindLocalStream(%#x) returned, an RTCP packet (PT %d, FMT %d) about that SSRC was written", ssrc, raw[1], raw[0]&0x1f)
 					}
 				}
